@@ -34,7 +34,11 @@ type FakeEIO struct {
 	CloseReason eio.Reason
 	// SlowSend adds a scheduling point inside Send (a transport that takes its time).
 	SlowSend bool
-	e        *vsched.Exec
+	// FrameByFrame: the packets of one Send go out one at a time with a scheduling point before each, as the
+	// WebSocket / WebTransport transports write them (their Send takes the write lock per packet): two goroutines
+	// that call Send at once interleave their packets.
+	FrameByFrame bool
+	e            *vsched.Exec
 }
 
 func (f *FakeEIO) ID() string                  { return f.SID }
@@ -43,6 +47,22 @@ func (f *FakeEIO) PingTimeout() time.Duration  { return 20 * time.Second }
 func (f *FakeEIO) TransportName() string       { return "fake" }
 
 func (f *FakeEIO) Send(packets ...*eioparser.Packet) {
+	if f.FrameByFrame {
+		batch := 0
+		f.V.Do(func() { batch = f.Sends; f.Sends++ })
+		for _, p := range packets {
+			vsched.PointL("fake-eio-write-frame")
+			p := p
+			f.V.Do(func() {
+				fr := Frame{Binary: p.IsBinary, Data: string(p.Data), Batch: batch}
+				if vsched.E != nil {
+					fr.At = vsched.E.Clock()
+				}
+				f.Frames = append(f.Frames, fr)
+			})
+		}
+		return
+	}
 	if f.SlowSend {
 		vsched.PointL("fake-eio-send")
 	}
